@@ -349,6 +349,67 @@ def run(chk):
     ok = len(gs) == 1 and gs[0][1] and "ramp_up_wait_time" in source.inline(gs[0][0], edefs)
     chk.ob("O5.4", "ramp-up wait guarded only by a non-zero wait time", ok, sleeps[0], "")
 
+    # ---- O5.6 target throughput parsing ------------------------------------------------------------------------------------------------------------------
+    chk.rule("O5.6", "target throughput of a task: interval k => 1/k ops/s; numeric throughput v => v ops/s; string 'v unit/s' => (v, unit/s); both given, non-numeric interval, malformed string "
+             "or another type => rejected; neither => unthrottled (None)", 8,
+             "a target interval is taken as a rate (or vice versa): the task is paced at the inverse of what the track says")
+    TKc = repo.module("esrally/track/track.py").cls("Task")
+    repo_trk = repo.module("esrally/track/track.py")
+    chk.use(repo_trk)
+    tt = repo_trk.methods(TKc).get("target_throughput")
+    if tt is None:
+        raise AnchorMissing("Task.target_throughput")
+    body = [s_ for s_ in tt.body if not isinstance(s_, ast.FunctionDef)]
+    CASES = [  # (label, interval, throughput) abstract values: None | 'num' | 'nonnum' | 'str-ok' | 'str-bad' | 'other'
+        ("neither given", None, None, ("none", None, None)),
+        ("both given", "num", "num", ("raise", None, None)),
+        ("interval numeric", "num", None, ("value", "1 / float(target_interval)", "'ops/s'")),
+        ("interval not numeric", "nonnum", None, ("raise", None, None)),
+        ("throughput numeric", None, "num", ("value", "float(target_throughput)", "'ops/s'")),
+        ("throughput well-formed string", None, "str-ok", ("value", "float(matches.group('value'))", "matches.group('unit')")),
+        ("throughput malformed string", None, "str-bad", ("raise", None, None)),
+        ("throughput of another type", None, "other", ("raise", None, None)),
+    ]
+    for label, iv, tv, want in CASES:
+        def atom(n, env, iv=iv, tv=tv):
+            t = u(n)
+            tab = {
+                "target_interval is not None": iv is not None, "target_throughput is not None": tv is not None,
+                "target_interval is None": iv is None, "target_throughput is None": tv is None,
+                "target_interval": iv is not None, "target_throughput": tv is not None,
+                "numeric(target_interval)": iv == "num", "numeric(target_throughput)": tv == "num",
+                "isinstance(target_throughput, str)": tv in ("str-ok", "str-bad"), "matches": tv == "str-ok",
+                "value": True,
+            }
+            return tab.get(t)
+
+        try:
+            out = decide(body, atom, {})
+        except (Unsupported, UnknownAtom) as e:
+            chk.unknown("O5.6", f"target_throughput is not a decision over (interval kind, throughput kind): {e}", tt)
+            break
+        b_ = getattr(out, "bindings", {})
+        if want[0] == "raise":
+            ok = out.kind == "raise"
+            got = out.text()
+        elif want[0] == "none":
+            # value stays None -> `if value:` must be evaluated with value None
+            def atom2(n, env):
+                return False if u(n) == "value" else atom(n, env)
+            out2 = decide(body, atom2, {})
+            ok = out2.kind == "return" and isinstance(out2.value, ast.Constant) and out2.value.value is None
+            got = out2.text()
+        else:
+            ok = out.kind == "return" and isinstance(out.value, ast.Call) and last_attr(out.value.func) == "Throughput" and u(b_.get("value")) == want[1] and u(b_.get("unit")) == want[2]
+            got = f"{out.text()} with value={u(b_.get('value')) if b_.get('value') is not None else None} unit={u(b_.get('unit')) if b_.get('unit') is not None else None}"
+        chk.ob("O5.6", f"{label}", ok, tt, f"{got}; expected {want}", key=f"esrally/track/track.py:Task.target_throughput:{label}")
+    pat = [n for n in TKc.body if isinstance(n, ast.Assign) and u(n.targets[0]) == "THROUGHPUT_PATTERN"]
+    ok = bool(pat) and isinstance(pat[0].value, ast.Call) and isinstance(pat[0].value.args[0], ast.Constant) and "(?P<value>" in pat[0].value.args[0].value and "(?P<unit>" in pat[0].value.args[0].value and "/s" in pat[0].value.args[0].value
+    chk.ob("O5.6", "string form parsed with named groups value / unit (unit ends in /s)", ok, pat[0] if pat else TKc, "")
+    pk = local_defs(tt)
+    ok = u(pk.get("target_throughput")) == "self.params.get('target-throughput')" and u(pk.get("target_interval")) == "self.params.get('target-interval')"
+    chk.ob("O5.6", "read from the keys target-throughput / target-interval", ok, tt, "")
+
     # ---- O5.5 loop-control choice --------------------------------------------------------------------------------------------------------------------
     chk.rule("O5.5", "loop-control choice as a decision table: any time-period field => time-based; else any iteration field => iteration-based; else runner completion => time-based; "
              "else finite parameter source => time-based; the chosen control receives (warm-up, measurement) from the task fields of the same kind", 8,
@@ -463,6 +524,9 @@ VARIANTS = [
     V("seed m1: runner completion beats explicit iterations", "break", _D, "    if task.warmup_time_period is not None or task.time_period is not None:\n        return True", "    if task.warmup_time_period is not None or task.time_period is not None or task_runner.completed is not None:\n        return True", "O5.5"),
     V("iterations passed as warm-up", "break", _D, "        loop_control = IterationBased(warmup_iterations, iterations)", "        loop_control = IterationBased(iterations, warmup_iterations)", "O5.5"),
     V("warm-up period from time_period", "break", _D, "        warmup_time_period = task.warmup_time_period if task.warmup_time_period else 0", "        warmup_time_period = task.time_period if task.warmup_time_period else 0", "O5.5"),
+    V("interval taken as a rate", "break", "esrally/track/track.py", "            value = 1 / float(target_interval)", "            value = float(target_interval)", "O5.6"),
+    V("both interval and throughput accepted", "break", "esrally/track/track.py", "        if target_interval is not None and target_throughput is not None:", "        if False:", "O5.6"),
+    V("throughput key misspelled", "break", "esrally/track/track.py", "        target_throughput = self.params.get(\"target-throughput\")", "        target_throughput = self.params.get(\"target_throughput\")", "O5.6"),
     # preserving
     V("total - it <= 0", "keep", _D, "        return self._it >= self._total_iterations", "        return self._total_iterations - self._it <= 0"),
     V("W > it", "keep", _D, "        return metrics.SampleType.Warmup if self._it < self._warmup_iterations else metrics.SampleType.Normal", "        return metrics.SampleType.Warmup if self._warmup_iterations > self._it else metrics.SampleType.Normal"),
